@@ -66,12 +66,15 @@ def plan(pid, tier):
         for k2 in kinds:
           pairs.append((fx0, "seq", k + "+" + k2, 2, "micro-nf" if pid == "C11" else "micro", "micro-nf" if pid == "C11" else "micro", want, 0, 10.0, None))
       return pairs + shards
+    nf = "-nf" if pid == "C11" else ""        # C11: data<->formula switches of linked columns are outside the quantifier
     for fx, _ in INV_FIX[pid] + (("basic", "x"), ("types", "x")):
       for k in kinds:
-        shards.append((fx, "one", k, 1, "full", "full", want, 0, None, None))
+        shards.append((fx, "one", k, 1, "full" + nf, "full" + nf, want, 0, None, None))
         for k2 in kinds:
-          shards.append((fx, "seq", k + "+" + k2, 2, "tiny", "micro", want, 0, 120.0, None))
-        shards.append((fx, "seq", k, 3, "micro", "micro", want, 2, 120.0, None))
+          shards.append((fx, "seq", k + "+" + k2, 2, "tiny" + nf, "micro" + nf, want, 0, 120.0, None))
+        if pid != "C11":
+          # (histories with a generated prefix may switch a linked column between data and formula: not used for C11)
+          shards.append((fx, "seq", k, 3, "micro", "micro", want, 2, 120.0, None))
     return shards
   if tier == "quick":
     for fx, size in (("basic", "med"), ("trigger2", "small"), ("types", "small"), ("summary", "small"),
@@ -103,7 +106,7 @@ def plan(pid, tier):
           shards.append((fx, "one", k + "+Fail", 2, "full", "micro", want, 0, None, None))
     fixtures = ["basic", "types", "twoway", "summary", "trigger", "trigger2", "views", "lookup", "cycles", "cascade", "empties"]
     for fx in fixtures:
-      for k in F.ALL_KINDS:
+      for k in (kinds if pid == "C31" else F.ALL_KINDS):
         shards.append((fx, "one", k, 1, "full", "full", want, 0, None, None))
         shards.append((fx, "one", k, 1, "med", "med", want, 4, 60.0, None))
         shards.append((fx, "one", k, 2, "micro", "micro", want, 0, 240.0, None))
@@ -121,7 +124,8 @@ def signature(pid, fixture, v):
   msg = re.sub(r"0x[0-9a-f]+", "0x", v["msg"])
   return {"pid": pid, "fixture": fixture, "kinds": _kinds(v["bundles"]),
           "kinds_str": " ".join(ua[0] + (":" + ua[1] if str(ua[1]).startswith("_grist_") else "") for b in v["bundles"] for ua in b),
-          "msg_class": re.sub(r"[\d.]+", "#", msg)[:80], "msg": msg[:300], "bundles": json.dumps(v["bundles"], default=repr)}
+          "msg_class": re.sub(r"[\d.]+", "#", msg)[:80], "msg": msg[:300], "bundles": json.dumps(v["bundles"], default=repr),
+          "groupby_formula": bool(v.get("gbf"))}
 
 
 def native_replay(pid, witness_path):
